@@ -953,6 +953,24 @@ func OtherFeatures(names []string) []Feature {
 			b.use(n)
 		}
 	})
+	for _, cx := range []string{"simple", "complex"} {
+		cx := cx
+		add("collidingImportTwoReferrersInInlineWhoseNameIsTaken["+cx+"]", "collide-names", func(b *BundleSpec, s int) {
+			// one colliding import with two referrers inside an inline schema; the name generated for that inline schema
+			// exists already: the inline schema becomes an OAIGen definition itself, next to the OAIGen import it holds
+			var aux J = J{"type": "string", "description": "auxKit"}
+			if cx == "complex" {
+				aux = simpleObj("auxKit")
+			}
+			ref := J{"$ref": AuxA + "#/definitions/kit"}
+			b.Add(RootFile, P(simpleObj("rootKit"), "definitions", "kit"), P(simpleObj("pre"), "definitions", "kitHolderP"),
+				P(J{"type": "object", "properties": J{"p": J{"type": "object", "properties": J{"a": ref, "a2": ref}}, "q": J{"type": "string"}}}, "definitions", "kitHolder"))
+			b.Add(AuxA, P(aux, "definitions", "kit"))
+			for _, n := range []string{"kit", "kitHolderP", "kitHolder"} {
+				b.use(n)
+			}
+		})
+	}
 	add("twoInlineSameGeneratedName", "collide-names", func(b *BundleSpec, s int) {
 		b.Add(RootFile, P(J{"type": "object", "properties": J{"home_address": simpleObj("inl1")}}, "definitions", "member"),
 			P(J{"type": "object", "properties": J{"address": simpleObj("inl2")}}, "definitions", "member_home"))
